@@ -39,7 +39,7 @@ func init() {
 			{ID: "C08-R14", Title: "reflect.TypeOf of a handed-in value is guarded against nil", Floor: 1, Run: typeOfGuardedAgainstNil},
 			{ID: "C08-R15", Title: "converters narrow numbers only under a range test", Floor: 10, Run: converterNarrowingIsRangeChecked},
 			{ID: "C08-R16", Title: "From methods test a nil interface before asserting it", Floor: 1, Run: converterInterfaceAssertionsGuardNil},
-			{ID: "C08-R17", Title: "reflective method calls pass exactly the script's arguments", Floor: 2, Run: proxyCallPassesExactlyTheArguments},
+			{ID: "C08-R17", Title: "reflective method calls pass exactly the script's arguments", Floor: 1, Run: proxyCallPassesExactlyTheArguments},
 			{ID: "C08-R18", Title: "array converters compare the list length with the array length", Floor: 1, Run: arraysRejectLongerLists},
 			{ID: "C08-R19", Title: "proxies are not built on nil pointers", Floor: 1, Run: proxiesAreNotBuiltOnNilPointers},
 			{ID: "C08-R20", Title: "structs in Go slices are proxied in place", Floor: 1, Run: sliceElementsAreProxiedInPlace},
@@ -52,7 +52,7 @@ func init() {
 			{ID: "C08-R27", Title: "recursion over Go types is guarded", Floor: 1, Run: recursionOverGoTypesIsGuarded},
 			{ID: "C08-R28", Title: "raised errors are not pushed as values", Floor: 1, Run: raisedErrorsAreNotPushedAsValues},
 			{ID: "C08-R29", Title: "converted errors are values", Floor: 1, Run: convertedErrorsAreValues},
-			{ID: "C08-R30", Title: "entries made on the way are withdrawn with their cause (shared with C05-R14)", Floor: 2, Run: entriesMadeOnTheWayAreWithdrawnWithTheirCause},
+			{ID: "C08-R30", Title: "entries made on the way are withdrawn with their cause (shared with C05-R14)", Floor: 1, Run: entriesMadeOnTheWayAreWithdrawnWithTheirCause},
 			{ID: "C08-R31", Title: "map lookups use the map's own keys", Floor: 1, Run: mapLookupsUseTheMapsOwnKeys},
 			{ID: "C08-R32", Title: "Go values of script objects are not silently nil", Floor: 1, Run: goValuesOfScriptObjectsAreNotSilentlyNil},
 			{ID: "C08-R33", Title: "defaults do not replace what the host gave", Floor: 1, Run: defaultsDoNotReplaceWhatTheHostGave},
